@@ -11,6 +11,29 @@ theorem notexp_of_held {r : Rec} (hk : KR r) (hd : r.depth > 0) (hp : r.pending 
   | false => rfl
   | true => have := hk.2 hd e; rw [hp] at this; exact absurd this (by decide)
 
+theorem pushJ_unlock_jc (db : DB) (r0 : Rec) (h : Nat) : jc (db.pushJ r0 false).1 h = jc db h := by
+  have := pushJ_jc db r0 false h
+  simp at this
+  unfold DB.pushJ at this ⊢
+  split
+  · rfl
+  · split
+    · rfl
+    · show jcL (db.journal ++ [_]) h = _
+      rw [jcL_append, jcL_single]; simp; rfl
+
+theorem pushJ_noack_jc (db : DB) (r0 : Rec) (b : Bool) (h : Nat) (hr : r0.cmd.ack = false) : jc (db.pushJ r0 b).1 h = jc db h := by
+  unfold DB.pushJ
+  split
+  · rfl
+  · split
+    · rfl
+    · show jcL (db.journal ++ [_]) h = _
+      rw [jcL_append, jcL_single]; simp [hr]; rfl
+
+theorem updateHold_journal (db : DB) (hid : Nat) (c : Cmd) : (db.updateHold hid c).journal = db.journal := by
+  unfold DB.updateHold; simp only []; split <;> rfl
+
 theorem InvK.newRec {db : DB} (ha : InvA db) (hk : InvK db) (c : Cmd) : InvK (db.newRec c).1 := by
   obtain ⟨r0, e0, e1, e2, e3, e4, _⟩ := newRec_recs db c
   have hg : ∀ a, a ≠ db.nextHid → (db.newRec c).1.getR a = db.getR a := fun a ha => newRec_getR db c a ha
@@ -18,7 +41,7 @@ theorem InvK.newRec {db : DB} (ha : InvA db) (hk : InvK db) (c : Cmd) : InvK (db
     obtain ⟨r1, f0, _, f2, _⟩ := newRec_findR ha c
     rw [newRec_snd] at f0
     rw [getR_eq, f0]; exact fp_false_of_depth f2
-  refine ⟨hk.cfg, ?_, ?_, ?_⟩
+  refine ⟨hk.cfg, ?_, ?_, ?_, ?_⟩
   · intro r hr; rw [e0] at hr
     rcases List.mem_append.mp hr with hr | hr
     · exact hk.recs r hr
@@ -30,6 +53,11 @@ theorem InvK.newRec {db : DB} (ha : InvA db) (hk : InvK db) (c : Cmd) : InvK (db
   · intro x hx hfp
     have hlt := (ha.tabOk x hx).1
     rw [hg _ (by omega)] at hfp ⊢; exact hk.k1 x hx hfp
+  · intro a hj
+    have hj' : jc db a > 0 := hj
+    by_cases e : a = db.nextHid
+    · have := (ha.unref (h := a) (Or.inr (by omega))).1; omega
+    · rw [hg a e]; exact hk.kj a hj'
 
 theorem InvK.opLock {db : DB} (ha : InvA db) (hk : InvK db) (c : Cmd) : InvK (opLock db c).1 := by
   have hs := classifyLock_spec db c
@@ -46,9 +74,12 @@ theorem InvK.opLock {db : DB} (ha : InvA db) (hk : InvK db) (c : Cmd) : InvK (op
     have hne := notexp_of_held hkr hm.2 hnp
     have hpr : findR db.recs h = some r := by rw [← e1]; exact findR_of_mem ha.nodup hm.1
     have h1 := ((AtK.start ha hk hpr).modR (fun r => { r with depth := r.depth + 1 }) (by intro _; rfl)).modKey c.key (fun k => { k with locked := k.locked + 1 })
-    have hfin : ∀ (d : DB) (r1 : Rec), AtK d h r1 → r1.ack = r.ack → r1.expried = false →
-        InvK (if ((d.updateHold h c).getR h).isAof = true then ((d.updateHold h c).pushLock h).1 else d.updateHold h c) := by
-      intro d r1 hd c3 c6
+    have hgr : db.getR h = r := by rw [getR_eq, hpr]; rfl
+    have hjz : jc db h = 0 := hk.jz (by rw [hgr]; exact hm.2) (by rw [hgr]; exact hnp)
+    have hfin : ∀ (d : DB) (r1 : Rec), AtK d h r1 → r1.ack = r.ack → r1.expried = false → jc d h = 0 →
+        InvK (if ((d.updateHold h c).getR h).isAof = true then ((d.updateHold h c).pushJ ((d.updateHold h c).getR h).noAckFlag true).1 else d.updateHold h c) := by
+      intro d r1 hd c3 c6 hjd
+      have hju : jc (d.updateHold h c) h = 0 := by rw [jc_of_journal (updateHold_journal d h c)]; exact hjd
       have hu : ∃ r2, AtK (d.updateHold h c) h r2 ∧ r2.ack = r.ack ∧ r2.expried = false := by
         unfold DB.updateHold
         simp only []
@@ -59,19 +90,22 @@ theorem InvK.opLock {db : DB} (ha : InvA db) (hk : InvK db) (c : Cmd) : InvK (op
         · exact ⟨_, hd1, c3, c6⟩
       obtain ⟨r2, h2, g3, g6⟩ := hu
       split
-      · obtain ⟨r3, h3, s, _, _⟩ := h2.pushLock
-        obtain ⟨s1, s2, s3, s4, s5, s6⟩ := s
-        exact h3.finishN ⟨by rw [s3, g3]; exact hkr.1, by intro _ hh; rw [s6, g6] at hh; exact absurd hh (by decide)⟩ (fp_false_of_expried (by rw [s6, g6]))
+      · exact (h2.pushJ ((d.updateHold h c).getR h).noAckFlag (by rw [noAck_hid, getR_hid]) true).finishN
+          ⟨by rw [g3]; exact hkr.1, by intro _ hh; rw [g6] at hh; exact absurd hh (by decide)⟩ (fp_false_of_expried g6)
+          (by intro hh; rw [pushJ_noack_jc _ _ _ _ (noAck_ack _), hju] at hh; omega)
       · exact h2.finishN ⟨by rw [g3]; exact hkr.1, by intro _ hh; rw [g6] at hh; exact absurd hh (by decide)⟩ (fp_false_of_expried g6)
+          (by intro hh; rw [hju] at hh; omega)
     unfold applyLock
     simp only []
     split
     · rename_i fr _
-      exact (hfin _ _ (h1.modKey c.key (fun k => { k with cell := some (applyFrame k.cell fr).1 })) rfl hne).ctrMod _
-    · exact (hfin _ _ h1 rfl hne).ctrMod _
+      exact (hfin _ _ (h1.modKey c.key (fun k => { k with cell := some (applyFrame k.cell fr).1 })) rfl hne
+        (by rw [jc_of_journal (db := db) (by simp)]; exact hjz)).ctrMod _
+    · exact (hfin _ _ h1 rfl hne (by rw [jc_of_journal (db := db) (by simp)]; exact hjz)).ctrMod _
   | grant =>
     obtain ⟨r0, f0, f1, f2, f3, f4, f5, f6⟩ := newRec_findR ha c
     have h1 : InvK ((db.newRec c).1.grant (db.newRec c).2).1 := InvK.grant (ha.newRec c) (InvK.newRec ha hk c) _ f0 (by rw [f4]; exact Nat.le_refl _)
+      (ha.unref (h := db.nextHid) (Or.inr (Nat.le_refl _))).1
     unfold applyLock
     simp only []
     split
@@ -92,6 +126,7 @@ theorem InvK.opLock {db : DB} (ha : InvA db) (hk : InvK db) (c : Cmd) : InvK (op
     have hack : r3.ack = 0 := by rw [s3, b3, a3]
     have hk3 : InvK ((((db.newRec c).1.ackHold (db.newRec c).2).addTimeOut (db.newRec c).2).pushLock (db.newRec c).2).1 := by
       refine h3.finish ⟨by rw [hack]; decide, by intro _ _; unfold Rec.pending; rw [hack]; decide⟩ ?_ ?_
+        (fun _ => Or.inr (by unfold Rec.pending; rw [hack]; decide))
       · intro _
         have e1 : tc ((((db.newRec c).1.ackHold (db.newRec c).2).addTimeOut (db.newRec c).2).pushLock (db.newRec c).2).1 (db.newRec c).2 = 0 := by
           unfold tc; rw [t3]; show tcL (((db.newRec c).1.ackHold (db.newRec c).2)).tab _ = 0; rw [ackHold_tab]; exact hu.2
@@ -112,15 +147,15 @@ theorem InvK.opLock {db : DB} (ha : InvA db) (hk : InvK db) (c : Cmd) : InvK (op
     simp only []
     split
     · exact hk3
-    · exact InvK.ackDone hai hk3 _ _
+    · exact InvK.ackDone hai hk3 _ _ (by intro _ _; rw [h3.getR, s6, b4, a4]; exact f6) (by intro hh; cases hh)
   | queue =>
     obtain ⟨r0, f0, f1, f2, f3, f4, f5, f6⟩ := newRec_findR ha c
     have h1 := (AtK.start (ha.newRec c) (InvK.newRec ha hk c) f0).modR (fun r => { r with queued := true }) (by intro _; rfl)
     obtain ⟨r2, h2, b2, b3, b4, b5⟩ := h1.addTimeOut
     unfold applyLock
     simp only []
-    exact ((h2.modKey c.key (fun k => { k with waited := true })).ctrMod (fun x => { x with waitCount := x.waitCount + 1 })).finishN
-      ⟨by rw [b3]; show r0.ack ≤ NOACK; rw [f4]; exact Nat.le_refl _, by intro hd; rw [b2] at hd; simp [f2] at hd⟩ (fp_false_of_depth (by rw [b2]; exact f2))
+    exact ((h2.modKey c.key (fun k => { k with waited := true })).ctrMod (fun x => { x with waitCount := x.waitCount + 1 })).finishD
+      ⟨by rw [b3]; show r0.ack ≤ NOACK; rw [f4]; exact Nat.le_refl _, by intro hd; rw [b2] at hd; simp [f2] at hd⟩ (by rw [b2]; exact f2)
 
 /-- an update of the record `hid` that keeps "is a hold", the wheel flag and the counter -/
 theorem InvK.modR_keep {db : DB} (ha : InvA db) (hk : InvK db) (hid : Nat) (f : Rec → Rec) (hf : ∀ r, (f r).hid = r.hid)
@@ -155,23 +190,20 @@ theorem InvK.modR_keep {db : DB} (ha : InvA db) (hk : InvK db) (hid : Nat) (f : 
           simp [h, this]
       rw [this]
     have hkr := hk.recs r (findR_some_mem e).1
-    refine h1.finish ⟨by rw [hfr.2.2]; exact hkr.1, ?_⟩ ?_ ?_
+    refine h1.finish ⟨by rw [hfr.2.2]; exact hkr.1, ?_⟩ ?_ ?_ ?_
     · intro hd he; unfold Rec.pending; rw [hfr.2.2]; exact hkr.2 (hfr.1.mp hd) (by rw [← hfr.2.1]; exact he)
     · intro hh; rw [hfp] at hh; exact hk.k2 hid (by rw [hg]; exact hh)
     · intro x hx hxe hh; rw [hfp] at hh
       have := hk.k1 x hx (by rw [hxe, hg]; exact hh)
       rw [hxe, hg] at this; rw [hfr.2.2]; exact this
-
-theorem pushJ_unlock_jc (db : DB) (r0 : Rec) (h : Nat) : jc (db.pushJ r0 false).1 h = jc db h := by
-  have := pushJ_jc db r0 false h
-  simp at this
-  unfold DB.pushJ at this ⊢
-  split
-  · rfl
-  · split
-    · rfl
-    · show jcL (db.journal ++ [_]) h = _
-      rw [jcL_append, jcL_single]; simp; rfl
+    · intro hj
+      have hj' : jc db hid > 0 := hj
+      rcases hk.kj hid hj' with h | h
+      · rw [hg] at h
+        by_cases hd : (f r).depth > 0
+        · have := hfr.1.mp hd; omega
+        · exact Or.inl (by omega)
+      · rw [hg] at h; exact Or.inr (by unfold Rec.pending at h ⊢; rw [hfr.2.2]; exact h)
 
 theorem InvK.journalUnlock {db : DB} (ha : InvA db) (hk : InvK db) (hid : Nat) (keep : Bool) : InvK (db.journalUnlock hid keep) := by
   unfold DB.journalUnlock
@@ -179,11 +211,12 @@ theorem InvK.journalUnlock {db : DB} (ha : InvA db) (hk : InvK db) (hid : Nat) (
   · simp only []
     have h1 : InvK (db.pushJ (db.getR hid) false).1 := by
       have hg : ∀ a, (db.pushJ (db.getR hid) false).1.getR a = db.getR a := fun a => getR_frame (pushJ_recs _ _ _) a
-      refine ⟨by rw [pushJ_cfg]; exact hk.cfg, by rw [pushJ_recs]; exact hk.recs, ?_, ?_⟩
+      refine ⟨by rw [pushJ_cfg]; exact hk.cfg, by rw [pushJ_recs]; exact hk.recs, ?_, ?_, ?_⟩
       · intro a hfp; rw [hg] at hfp
         have e1 : tc (db.pushJ (db.getR hid) false).1 a = tc db a := by unfold tc; rw [pushJ_tab]
         rw [pushJ_unlock_jc, e1]; exact hk.k2 a hfp
       · rw [pushJ_tab, pushJ_cfg]; intro x hx hfp; rw [hg] at hfp ⊢; exact hk.k1 x hx hfp
+      · intro a hj; rw [pushJ_unlock_jc] at hj; rw [hg]; exact hk.kj a hj
     split
     · exact h1.irrel' hid _ rfl (by intro _; exact ⟨rfl, rfl, rfl, rfl⟩) rfl rfl rfl
     · exact h1
@@ -192,28 +225,13 @@ theorem InvK.journalUnlock {db : DB} (ha : InvA db) (hk : InvK db) (hid : Nat) (
 theorem classifyUnlock_holder (db : DB) (c : Cmd) :
     (∀ h, classifyUnlock db c = .dec h ∨ classifyUnlock db c = .release h → ∃ r ∈ db.recs, r.hid = h ∧ r.depth > 0) ∧
     (∀ h, classifyUnlock db c = .dec h → ∃ r ∈ db.recs, r.hid = h ∧ r.depth > 1) := by
-  unfold classifyUnlock
-  simp only []
   constructor
   · intro h hh
-    split at hh
-    · simp at hh
-    · split at hh
-      · simp at hh
-      · split at hh
-        · rename_i r hr
-          have hm := findHolder_mem hr
-          split at hh
-          · simp at hh
-          · exact ⟨r, hm.1, by split at hh <;> simp at hh <;> exact hh, hm.2⟩
-        · split at hh
-          · split at hh
-            · rename_i r hr
-              have hm := holders_head_mem hr
-              exact ⟨r, hm.1, by split at hh <;> simp at hh <;> exact hh, hm.2⟩
-            · simp at hh
-          · simp at hh
+    obtain ⟨r, hm, e, hd, _⟩ := classifyUnlock_spec db c h hh
+    exact ⟨r, hm, e, hd⟩
   · intro h hh
+    unfold classifyUnlock at hh
+    simp only [] at hh
     split at hh
     · simp at hh
     · split at hh
@@ -231,8 +249,10 @@ theorem classifyUnlock_holder (db : DB) (c : Cmd) :
             · rename_i r hr
               have hm := holders_head_mem hr
               split at hh
-              · rename_i hc; simp at hh; exact ⟨r, hm.1, hh, by simp at hc; exact hc.1⟩
               · simp at hh
+              · split at hh
+                · rename_i hc; simp at hh; exact ⟨r, hm.1, hh, by simp at hc; exact hc.1⟩
+                · simp at hh
             · simp at hh
           · simp at hh
 
@@ -262,8 +282,8 @@ theorem InvK.opUnlock {db : DB} (ha : InvA db) (hk : InvK db) (c : Cmd) : InvK (
       (fun k => { k with locked := k.locked - (db.getR h).depth })
     obtain ⟨r2, h2, _, _⟩ := h1.journalUnlock false
     obtain ⟨r3, h3, c1, c2⟩ := h2.removeLock
-    have hk' := (h3.ctrMod (fun x => { x with unLockCount := x.unLockCount + (db.getR h).depth, lockedCount := x.lockedCount - (db.getR h).depth })).finishN
-      (KR_dead' c1 c2) (fp_false_of_depth c1)
+    have hk' := (h3.ctrMod (fun x => { x with unLockCount := x.unLockCount + (db.getR h).depth, lockedCount := x.lockedCount - (db.getR h).depth })).finishD
+      (KR_dead' c1 c2) c1
     have ha' : InvA ((((db.modR h (fun r => { r with expried := true })).modKey c.key (fun k => { k with locked := k.locked - (db.getR h).depth })).journalUnlock h false).removeLock h |>.ctrMod
         (fun x => { x with unLockCount := x.unLockCount + (db.getR h).depth, lockedCount := x.lockedCount - (db.getR h).depth })) := by
       apply InvA.ctrMod; apply InvA.removeLock; apply InvA.journalUnlock; apply InvA.modKey
